@@ -158,6 +158,10 @@ def batches(rng, tier):
     n = 7 if thorough else 4
     ops = [f"isflag s:{w}" for w in words("-a=b", n)]
     ops += [f"enumfs s:{w}" for w in words("fobar", 4 if not thorough else 5)] + [f"enumfs s:{w}" for w in ("foo", "bar", "baz", "fo", "foobar", "foobarx", "fooba", "")]
+    # case, embedded NUL, bytes >= 0x80: a C-string or case-folding comparison is wrong on these
+    ops += [f"enumfs s:{w}" for w in ("FOO", "Foo", "fO", "BAR", "Fo", "FOOBAR", "foo_", "_foo")]
+    ops += [f"enumfs {hx(w)}" for w in ("foo\0", "\0foo", "fo\0o", "fo\0", "foobar\0x", "\0", "foo\xff", "\xe6oo", "foo ", " foo")]
+    ops += [f"isflag {hx(w)}" for w in ("-\0", "--\0a", "\0-", "-\xff", "\xff-", "--\xff\0", "\xad", "-\xad", " -", "- ", "-- ", "\t-a")]
     ops += [f"flagname {k} s:{w}" for k in ("short", "long") for w in words("-a=", 3 if not thorough else 4)]
     yield Batch("strings", ops, exhaustive=True, note="is_flag, enum from_string, flag_name (+ is_flag of its result) on all short strings, views backed by exact-size heap buffers")
     toks = ["-", "--", "-a", "--opt", "x", "-x", "", "--a", "-opt"]
